@@ -7,6 +7,7 @@ import Qfx.Drv.SchedMon
 import Qfx.Drv.Sess
 import Qfx.Drv.SessMon
 import Qfx.Drv.Link
+import Qfx.Drv.Robust
 import Qfx.Drv.Dict
 import Qfx.Drv.DictMon
 import Qfx.Drv.Valid
@@ -20,6 +21,7 @@ def families : List (String × Family) :=
   , ("sched", schedFamily), ("sched-mon", schedMonFamily)
   , ("sess", sessFamily), ("sess-mon", sessMonFamily)
   , ("link", linkFamily), ("link-mon", linkMonFamily)
+  , ("robust", robustFamily), ("robust-mon", robustMonFamily)
   , ("dict", dictFamily), ("dict-mon", dictMonFamily)
   , ("valid", validFamily), ("valid-mon", validMonFamily)
   , ("frame", frameFamily), ("frame-mon", frameMonFamily)
